@@ -1,4 +1,8 @@
+#[cfg(not(feature = "verif-hooks"))]
 use std::collections::HashMap;
+#[cfg(feature = "verif-hooks")]
+#[allow(unused_imports)]
+use crate::verif_hooks::{HashMap, SimNew};
 use itertools::Itertools;
 use std::slice;
 use crate::*;
